@@ -360,10 +360,33 @@ EmitParam(p) ==
             kx  == NK(p) = 0 \/ KeyExpressible(cx.key)
             why == IF ~val.x THEN val.why ELSE IF ~kx THEN KeyWhy(cx.key) ELSE ListWhy(p, cx.lists)
         IN Emit("CASE", [pid |-> p.pid, key |-> cx.key, entry |-> cx.entry, lists |-> cx.lists, vn |-> val.n,
-                         y |-> val.y, alt |-> altv.y, e |-> val.e, k |-> KeyOf(ca),
+                         y |-> val.y, alt |-> altv.y, e |-> val.e, k |-> KeyOf(ca), sk |-> <<>>, exact |-> TRUE, np |-> FALSE,
                          x |-> val.x /\ kx /\ ListsOK(cx.lists, p.dlen) /\ ItemOK(p, cx.lists), why |-> why])
 
-EmitCases == GenMode => \A i \in 1..Len(Params) : (ValsOf(Params[i]) # <<>> => EmitParam(Params[i]))
+\* ---- variables whose name continues after a complete parameter name (MTX_READTIMEOUT_X, ..._0, ..._0_X, ...__):
+\* they address nothing in the documented grammar, so the equations demand nothing (x = FALSE); the only demand
+\* is that loading does not crash (np = TRUE). sk is the suffixed name, exact says whether Key(p) is set as well.
+Sfx(n, cs, ex) == [n |-> n, cs |-> cs, ex |-> ex]
+Suffixes == IF Full
+            THEN << Sfx("_X", <<"_", "X">>, FALSE), Sfx("_0", <<"_", "0">>, FALSE), Sfx("_0_X", <<"_", "0", "_", "X">>, FALSE),
+                    Sfx("__", <<"_", "_">>, FALSE), Sfx("_X", <<"_", "X">>, TRUE), Sfx("_0_X", <<"_", "0", "_", "X">>, TRUE) >>
+            ELSE << Sfx("_X", <<"_", "X">>, FALSE), Sfx("_0_X", <<"_", "0", "_", "X">>, TRUE) >>
+OwnDecoder(p) == p.kind \in {"duration", "stringsize", "credential", "enum", "ulist"}
+SuffixParam(p) == Full \/ (p.ptr /\ OwnDecoder(p))
+SuffixCtx(p) == [key |-> IF NK(p) = 0 THEN <<>> ELSE <<"c","a","m">>, entry |-> IF NK(p) = 0 THEN "none" ELSE "present",
+                 lists |-> IF NI(p) = 0 THEN <<>> ELSE IF NI(p) = 1 THEN << [len |-> 2, idx |-> 1] >>
+                           ELSE << [len |-> 1, idx |-> 0], [len |-> 1, idx |-> 0] >>]
+EmitSuffix(p) ==
+    LET vals == ValsOf(p) cx == SuffixCtx(p) val == vals[1] k == KeyOf(Concrete(p.addr, cx.key, cx.lists)) IN
+    \A si \in 1..Len(Suffixes) :
+        LET sf == Suffixes[si] IN
+        Emit("CASE", [pid |-> p.pid, key |-> cx.key, entry |-> cx.entry, lists |-> cx.lists,
+                      vn |-> "suffix" \o sf.n \o (IF sf.ex THEN "+exact" ELSE ""),
+                      y |-> val.y, alt |-> val.y, e |-> val.e, k |-> k, sk |-> k \o sf.cs, exact |-> sf.ex, np |-> TRUE,
+                      x |-> FALSE, why |-> "the variable name continues after the parameter name (only a crash would be a violation)"])
+
+EmitCases == GenMode => \A i \in 1..Len(Params) :
+                 ValsOf(Params[i]) # <<>> => (EmitParam(Params[i]) /\ (SuffixParam(Params[i]) => EmitSuffix(Params[i])))
 NoTable   == GenMode => \A i \in 1..Len(Params) :
                  (ValsOf(Params[i]) = <<>> /\ Params[i].kind \notin {"struct", "map", "optpath"}) => Emit("NOTABLE", [pid |-> Params[i].pid, type |-> Params[i].type])
 =============================================================================
